@@ -90,6 +90,17 @@ def run(tier, seed, replay):
 
     def expect(a, cfg, got_of):
         """expected probe description of one argument, or None when this oracle does not decide the form"""
+        if isinstance(a, cfggen.Raw):
+            # a scalar written verbatim: decide it like YAML does (integers first, then floats; anything else is left to the model)
+            try:
+                a = int(a.text)
+            except ValueError:
+                try:
+                    a = float({".inf": "inf", "-.inf": "-inf", ".nan": "nan"}.get(a.text, a.text))
+                except ValueError:
+                    return None
+            if isinstance(a, int) and not -2 ** 63 <= a < 2 ** 64:
+                a = float(a)
         if isinstance(a, bool):
             return {"k": "bool", "v": a}
         if a is None:
